@@ -177,6 +177,40 @@ def classify_k(ln, out):
 # ------------------------------------------------------------------------------------------------
 # pf pair
 
+def kerx_plans(shim):
+    """(kern_mask, requested_kerning, apply_kerx) of the crate's plan on a kerx-only face, per direction x kern feature"""
+    keys = [(d, f) for d in DIRS for f in ("0", "1", "-")]
+    tbl = KX.kerx_table([{"fmt": 0, "h": 1, "c": 0, "v": 0, "pairs": {(1, 2): -10}}])
+    outs = vlib.run_lines(shim, [f"kerx plan {tbl.hex()} {d} {f}" for d, f in keys], nproc=1)
+    res = {}
+    for k, o in zip(keys, outs):
+        t = o.split()
+        if t[0] != "ok":
+            raise vlib.BuildError(f"kerx plan query failed: {k} -> {o}")
+        res[k] = (int(t[1]), int(t[2]), int(t[3]))
+    return res
+
+
+def _sparse_f1(r, gids, vf1, vf2):
+    """a format 1 subtable in which about half of the second glyphs are missing from each PairSet (the declining path of C04f)
+    -> the tuple of GF._pair_subtable"""
+    allv = []
+
+    def vr(vf):
+        v = GF.rand_vr(r, vf); allv.append(v); return v
+    pairs = {}
+    for a in gids:
+        if r.chance(5, 6):
+            pairs[a] = {b: (vr(vf1), vr(vf2)) for b in gids if r.chance(1, 2)} or {gids[0]: (vr(vf1), vr(vf2))}
+    pairs = pairs or {gids[0]: {gids[-1]: (vr(vf1), vr(vf2))}}
+    data = GD.pair_subtable_f1(pairs, vf1, vf2)
+
+    def look(a, b):
+        rec = pairs.get(a, {}).get(b)
+        return None if rec is None else tuple(GD.pairset_visible(v) for v in rec)
+    return data, look, (lambda a: a in pairs), allv, 1
+
+
 def gen_pair(r, pc):
     n = r.range(2, 7)
     d = r.choice(DIRS)
@@ -186,7 +220,7 @@ def gen_pair(r, pc):
     i = r.below(n) if r.chance(1, 6) else r.below(n - 1)
     vf1 = GF.rand_vf(r)
     vf2 = r.choice([0, 0, 0, GF.rand_vf(r), r.choice(GD.BITS[4:])])
-    data, look, covered, allv, fmt = GF._pair_subtable(r, gids, vf1, vf2)
+    data, look, covered, allv, fmt = _sparse_f1(r, gids, vf1, vf2) if r.chance(1, 3) else GF._pair_subtable(r, gids, vf1, vf2)
     first = gids[i]
     hasset = 1
     if fmt == 1 and covered(first) and r.chance(1, 8):
@@ -263,6 +297,17 @@ def classify_pair(ln, out):
         if out.split()[1] == "1": ks.append("pair:applied")
         if any(int(x) & 3 for x in out.split()[4].split(",")): ks.append("pair:some-flag")
     return ks
+
+
+def replay_search(rp, shim, pc):
+    """re-run one recorded request of the three searches below"""
+    o = vlib.run_lines(shim, [rp["request"]], nproc=1)[0]
+    d = (pair_eval(rp["request"], o, pc) if rp["stream"] == "pairpos-miss-span" else kern_eval(rp["request"], o))[0]
+    print("request:", rp["request"]); print("reply  :", o[-1500:]); print("deviation:", d)
+    return 1 if d else 0
+
+
+SEARCH_STREAMS = ("kern-span", "kerx-span", "pairpos-miss-span")
 
 
 def hook_search(ctx, shim, r, n, pc, plans=None):
